@@ -1,11 +1,49 @@
-from jsim.envs.base import Adapter
+"""CVRP: rules written from docs/environments/cvrp.md and the class docstring.
+
+num_nodes customers (indices 1..num_nodes) with integer demands plus the depot (index 0, demand 0); one
+vehicle of capacity max_capacity starting at the depot. An action is the index of the next node to visit.
+Each customer must be visited exactly once and have its demand covered: a customer is a possible action
+iff it is unvisited and its demand does not exceed the remaining capacity; visiting the depot restores the
+full capacity and is possible iff the vehicle is not already there. `trajectory` (2*num_nodes slots, depot
+index where not filled yet) records the nodes visited, starting with the depot. The episode ends when no
+action can be performed (all customers served and the vehicle back at the depot) or on an invalid action,
+which carries the penalty -2*num_nodes*sqrt(2). Dense reward: minus the distance travelled by the step (plus
+the distance to the depot on the last node); sparse: minus the length of the whole route on the last step.
+The observation shows demands and capacity divided by max_capacity.
+"""
+from __future__ import annotations
+
+from typing import Any, List, Tuple
+
+import numpy as np
+
 from jsim.envs._mk import cfg
+from jsim.envs.base import Adapter
+
+DEPOT = 0
+PROBLEM_FIELDS = ("coordinates", "demands", "position", "capacity", "visited_mask", "trajectory", "num_total_visits")
+
+
+def _dist(xy: np.ndarray, i: int, j: int) -> float:
+    d = np.asarray(xy[int(i)], np.float64) - np.asarray(xy[int(j)], np.float64)
+    return float(np.sqrt((d * d).sum()))
+
+
+def _close(a: float, b: float) -> bool:
+    # eager vs jit differ by one ulp on the penalty constant: always compare with a tolerance
+    return bool(np.isclose(a, b, rtol=1e-5, atol=1e-5))
 
 
 class A(Adapter):
     name = "CVRP"
     mask_mode = "flat"
     terminate_on_invalid = True
+    has_reaction = True
+    has_invalid_effect = True
+    has_constraints = True
+    has_objective = True
+    has_model = True
+    has_observer = True
 
     def configs(self):
         return [cfg("n20", True, n=20, cap=30, dem=10, rew="dense"), cfg("n5sparse", True, n=5, cap=6, dem=5, rew="sparse"),
@@ -20,3 +58,241 @@ class A(Adapter):
 
     def horizon(self, env, c):
         return 2 * c["n"]
+
+    # ---- rules ---------------------------------------------------------------------------------
+    @staticmethod
+    def _route(s: Any) -> List[int]:
+        """Nodes visited so far in order (starts with the depot): the filled prefix of the trajectory."""
+        k = int(s.num_total_visits)
+        return [int(c) for c in np.asarray(s.trajectory)[:k]]
+
+    @staticmethod
+    def _penalty(n: int) -> float:
+        return -2.0 * float(n) * float(np.sqrt(2.0))
+
+    def _served(self, s: Any) -> np.ndarray:
+        n1 = int(np.asarray(s.demands).shape[0])
+        out = np.zeros(n1, bool)
+        for c in self._route(s):
+            if 0 < c < n1:
+                out[c] = True
+        return out
+
+    def legal(self, s: Any, env: Any) -> np.ndarray:
+        dem = np.asarray(s.demands)
+        served = self._served(s)
+        out = ~served & (dem <= int(s.capacity))
+        out[DEPOT] = int(s.position) != DEPOT
+        return out
+
+    def describe(self, s, env, idx):
+        i = int(idx[0])
+        return (f"node {i} demand {int(np.asarray(s.demands)[i])}, remaining capacity {int(s.capacity)}, position {int(s.position)}, "
+                f"route so far {self._route(s)}")
+
+    # ---- C04 (b) -------------------------------------------------------------------------------
+    def reaction_invalid(self, ps, action, agent, s, ts, env, cfg):
+        # invalid signature: LAST carrying the documented penalty. A completing move returns to the depot
+        # (dense: >= -sqrt(2); sparse: minus a route length that reaches 2n*sqrt(2) only for degenerate instances)
+        if int(ts.step_type) != 2:
+            return False
+        return _close(float(ts.reward), self._penalty(cfg["n"]))
+
+    # ---- C05 -----------------------------------------------------------------------------------
+    def invalid_effect(self, ps, action, illegal, s, ts, env, cfg):
+        n = cfg["n"]
+        if int(ts.step_type) != 2:
+            return ("invalid_move_not_terminal", f"step_type {int(ts.step_type)} after an invalid move to node {int(action)} ({self.describe(ps, env, (int(action),))})")
+        if not _close(float(ts.reward), self._penalty(n)):
+            return ("invalid_move_reward", f"reward {float(ts.reward)} != documented penalty -2*num_nodes*sqrt(2) = {self._penalty(n)}")
+        if float(np.asarray(ts.discount)) != 0.0:
+            return ("invalid_move_discount", f"discount {float(np.asarray(ts.discount))} != 0 on the terminal step")
+        for f in PROBLEM_FIELDS:
+            if not np.array_equal(np.asarray(getattr(ps, f)), np.asarray(getattr(s, f))):
+                return ("invalid_move_changed_state", f"field {f} changed on an invalid move: {np.asarray(getattr(ps, f)).tolist()} -> {np.asarray(getattr(s, f)).tolist()}")
+        return None
+
+    # ---- C06 -----------------------------------------------------------------------------------
+    def constraints(self, hist, env, cfg):
+        n, cap = cfg["n"], cfg["cap"]
+        s0, s = hist[0].state, hist[-1].state
+        dem = np.asarray(s0.demands).astype(np.int64)
+        steps = [r for r in hist[1:] if not r.post_terminal]
+        acts = [int(r.action) for r in steps]
+        # walk the action history: load carried since the last depot visit, customers served
+        load, served = 0, []
+        for t, a in enumerate(acts):
+            if a == DEPOT:
+                load = 0
+                continue
+            if a in served:
+                return ("customer_served_twice", f"legal play served customer {a} twice: actions {acts}")
+            served.append(a)
+            load += int(dem[a])
+            if load > cap:
+                return ("load_exceeds_capacity", f"after action #{t + 1} (customer {a}, demand {int(dem[a])}) the load since the last depot visit is "
+                        f"{load} > capacity {cap}: actions {acts}")
+        # the state must describe exactly this partial route
+        route = [DEPOT] + acts
+        traj = np.asarray(s.trajectory)
+        want = np.zeros(traj.shape[0], dtype=np.int64)  # unfilled slots hold the depot index
+        m = min(len(route), traj.shape[0])  # 1 + 2n visits do not fit 2n slots; the overflowing visit is a depot return
+        want[:m] = route[:m]
+        if not np.array_equal(traj, want):
+            return ("trajectory_differs_from_history", f"trajectory {traj.tolist()} but the route played was {route}")
+        if int(s.num_total_visits) != len(route):
+            return ("num_total_visits_differs_from_history", f"num_total_visits {int(s.num_total_visits)} after a route of {len(route)} visits")
+        if int(s.position) != route[-1]:
+            return ("position_differs_from_history", f"position {int(s.position)} but the last node visited was {route[-1]}")
+        if int(s.capacity) != cap - load or int(s.capacity) < 0:
+            return ("capacity_differs_from_history", f"remaining capacity {int(s.capacity)} but capacity {cap} minus the load {load} carried since the last "
+                    f"depot visit is {cap - load}")
+        vm = np.asarray(s.visited_mask).astype(bool)
+        sv = np.zeros(n + 1, bool)
+        sv[served] = True
+        if not np.array_equal(vm[1:], sv[1:]):  # the depot entry has no documented meaning
+            return ("visited_mask_differs_from_history", f"visited customers {(np.flatnonzero(vm[1:]) + 1).tolist()} but customers served were {sorted(served)}")
+        if not np.array_equal(np.asarray(s.demands), np.asarray(s0.demands)) or not np.array_equal(np.asarray(s.coordinates), np.asarray(s0.coordinates)):
+            return ("instance_changed", "demands / coordinates differ from those of the reset state")
+        if steps and int(hist[-1].ts.step_type) == 2:
+            if len(served) != n:
+                return ("ended_with_unserved_customers", f"episode ended under legal play with customers {sorted(set(range(1, n + 1)) - set(served))} unserved")
+            if route[-1] != DEPOT:
+                return ("ended_away_from_depot", f"episode ended under legal play with the vehicle at node {route[-1]}")
+        return None
+
+    # ---- C08 -----------------------------------------------------------------------------------
+    @staticmethod
+    def _route_length(xy: np.ndarray, route: List[int]) -> float:
+        closed = list(route) + [DEPOT]  # including the return to the depot
+        return sum(_dist(xy, closed[i], closed[i + 1]) for i in range(len(closed) - 1))
+
+    def objective(self, hist, env, cfg):
+        s = hist[-1].state
+        n = cfg["n"]
+        k = min(int(s.num_total_visits), int(np.asarray(s.trajectory).shape[0]))  # a visit beyond the last slot is a depot return
+        route = [int(c) for c in np.asarray(s.trajectory)[:k]]
+        if sorted(c for c in route if c != DEPOT) != list(range(1, n + 1)) or int(s.position) != DEPOT:
+            return None  # not a complete route: objective undefined
+        return -self._route_length(np.asarray(s.coordinates), route)
+
+    def sparse_twin(self, c):
+        d = dict(c)
+        d["rew"] = "sparse" if c["rew"] == "dense" else "dense"
+        d["id"] = f"{c['id']}~{d['rew']}"
+        return d
+
+    # ---- C09 -----------------------------------------------------------------------------------
+    def model_step(self, ps, action, s, ts, env, cfg):
+        n, cap = cfg["n"], cfg["cap"]
+        a = int(action)
+        dem = np.asarray(ps.demands).astype(np.int64)
+        xy = np.asarray(ps.coordinates)
+        pos, rem = int(ps.position), int(ps.capacity)
+        served = self._served(ps)
+        if a == DEPOT:
+            ok = pos != DEPOT
+        else:
+            ok = (not served[a]) and int(dem[a]) <= rem
+        if not ok:  # invalid: terminates with the penalty; the state is not judged here (C05 does)
+            want_r, done = self._penalty(n), True
+        else:
+            new_rem = cap if a == DEPOT else rem - int(dem[a])
+            new_served = served.copy()
+            if a != DEPOT:
+                new_served[a] = True
+            done = bool(new_served[1:].all()) and a == DEPOT  # no action can be performed any more
+            route = self._route(ps)
+            if cfg["rew"] == "dense":
+                want_r = -_dist(xy, pos, a)
+                if done:
+                    want_r -= _dist(xy, a, DEPOT)  # "for the last node it also includes the distance to the depot" (0 here)
+            else:
+                want_r = -self._route_length(xy, route + [a]) if done else 0.0
+            if int(s.position) != a:
+                return ("position", f"position {int(s.position)} expected {a}")
+            if int(s.capacity) != new_rem:
+                return ("capacity", f"capacity {int(s.capacity)} expected {new_rem} (was {rem}, node {a} demand {int(dem[a])})")
+            if not np.array_equal(np.asarray(s.visited_mask).astype(bool)[1:], new_served[1:]):
+                return ("visited_mask", f"visited customers {(np.flatnonzero(np.asarray(s.visited_mask)[1:]) + 1).tolist()} expected {(np.flatnonzero(new_served[1:]) + 1).tolist()}")
+            traj = np.asarray(ps.trajectory).astype(np.int64).copy()
+            k = int(ps.num_total_visits)
+            if k < traj.shape[0]:
+                traj[k] = a
+            if not np.array_equal(np.asarray(s.trajectory), traj):
+                return ("trajectory", f"trajectory {np.asarray(s.trajectory).tolist()} expected {traj.tolist()}")
+            if int(s.num_total_visits) != k + 1:
+                return ("num_total_visits", f"num_total_visits {int(s.num_total_visits)} expected {k + 1}")
+            if not np.array_equal(np.asarray(s.demands), np.asarray(ps.demands)) or not np.array_equal(np.asarray(s.coordinates), xy):
+                return ("instance", "demands / coordinates changed during a step")
+        if not _close(float(ts.reward), want_r):
+            return ("reward", f"reward {float(ts.reward)} expected {want_r} ({cfg['rew']}, from node {pos} to {a}, valid={ok})")
+        if (int(ts.step_type) == 2) != done:
+            return ("termination", f"step_type {int(ts.step_type)} but the rules say done={done} (from node {pos} to {a}, valid={ok})")
+        return None
+
+    # ---- C11 -----------------------------------------------------------------------------------
+    def end_cause(self, ps, action, s, ts, env, cfg):
+        a = int(action)
+        if not self.legal(ps, env)[a]:
+            return "invalid_action"
+        if a == DEPOT and bool(self._served(ps)[1:].all()):
+            return "all_served_and_back_at_depot"
+        return None
+
+    # ---- C12 -----------------------------------------------------------------------------------
+    def observe(self, s, obs, env, cfg):
+        cap = float(cfg["cap"])
+        if not np.array_equal(np.asarray(obs.coordinates), np.asarray(s.coordinates)):
+            return ("coordinates", "obs.coordinates != state.coordinates")
+        want_d = np.asarray(s.demands, np.float64) / cap
+        d = np.asarray(obs.demands)
+        if d.shape != want_d.shape or not np.allclose(d, want_d, rtol=1e-5, atol=1e-6):
+            return ("demands", f"obs.demands {d.tolist()} vs demands / max_capacity {want_d.tolist()}")
+        u = np.asarray(obs.unvisited_nodes)
+        if not np.array_equal(u.astype(bool), ~np.asarray(s.visited_mask).astype(bool)):
+            return ("unvisited_nodes", f"obs.unvisited_nodes {u.astype(int).tolist()} vs ~visited_mask {(~np.asarray(s.visited_mask).astype(bool)).astype(int).tolist()}")
+        if np.asarray(obs.position).shape != () or int(obs.position) != int(s.position):
+            return ("position", f"obs.position {np.asarray(obs.position).tolist()} vs state.position {int(s.position)}")
+        if not np.array_equal(np.asarray(obs.trajectory), np.asarray(s.trajectory)):
+            return ("trajectory", f"obs.trajectory {np.asarray(obs.trajectory).tolist()} vs state {np.asarray(s.trajectory).tolist()}")
+        if not np.isclose(float(obs.capacity), float(s.capacity) / cap, rtol=1e-5, atol=1e-6):
+            return ("capacity", f"obs.capacity {float(obs.capacity)} vs capacity / max_capacity {float(s.capacity) / cap}")
+        # possible actions, from the state's own fields (visited_mask here: the observation must be a view of this state)
+        vm = np.asarray(s.visited_mask).astype(bool)
+        can = ~vm & (np.asarray(s.demands) <= int(s.capacity))
+        can[DEPOT] = int(s.position) != DEPOT
+        m = np.asarray(obs.action_mask)
+        if m.shape != can.shape or not np.array_equal(m.astype(bool), can):
+            return ("action_mask", f"obs.action_mask {m.astype(int).tolist()} vs possible actions {can.astype(int).tolist()}")
+        return None
+
+    # ---- policies ------------------------------------------------------------------------------
+    def policy_survive(self, s, env, rng, legal):
+        """Depot after every customer: the longest possible episode (2*num_nodes steps)."""
+        if legal is None or not legal.any():
+            return None
+        if legal[DEPOT]:
+            return DEPOT
+        idx = np.flatnonzero(legal)
+        return int(idx[int(rng.integers(0, len(idx)))])
+
+    def policy_complete(self, s, env, rng, legal):
+        """Nearest customer that still fits, the depot only when nothing fits."""
+        if legal is None or not legal.any():
+            return None
+        idx = [int(i) for i in np.flatnonzero(legal) if i != DEPOT]
+        if not idx:
+            return DEPOT
+        xy = np.asarray(s.coordinates)
+        return int(min(idx, key=lambda c: _dist(xy, int(s.position), c)))
+
+    def policy_collide(self, s, env, rng, legal):
+        """Fill the vehicle greedily with the largest demand that fits (tight capacity edges)."""
+        if legal is None or not legal.any():
+            return None
+        idx = [int(i) for i in np.flatnonzero(legal) if i != DEPOT]
+        if not idx:
+            return DEPOT
+        dem = np.asarray(s.demands)
+        return int(max(idx, key=lambda c: (int(dem[c]), -c)))
